@@ -261,6 +261,21 @@ class FnVerifier:
             cache[key] = found
         return cache[key]
 
+    def check_not_memoised(self, R, name, node):
+        """contracts with config['no_memo']: a module-level function used on this path must not be wrapped in a result cache
+        (functools.lru_cache / cache / cached_property): what it read from the world would be remembered across calls"""
+        if not self.c.config.get("no_memo"):
+            return
+        fd = find_def(self.tree, name)
+        if fd is None or not isinstance(fd, (ast.FunctionDef, ast.AsyncFunctionDef)):
+            return
+        for d in fd.decorator_list:
+            src = ast.unparse(d)
+            if any(k in src for k in ("lru_cache", "functools.cache", "cached_property", "memoize", "lazyobject")) or src in ("cache",):
+                self.add_obligation(R, "flag", "%s-is-memoised" % name, z3.BoolVal(False),
+                                    clause="%s (decorated %s) is used on a path that must consult the world afresh on every call" % (name, src),
+                                    line=getattr(node, "lineno", None))
+
     def is_callable_type(self, t):
         return (t.kind == "opaque" and t.name in self.c.config.get("callable_types", ("fn", "callable"))) or t is T.Const
 
@@ -740,7 +755,12 @@ class FnVerifier:
             if rt.heap:
                 raise EngineError("pure external with heap result")
             skip = ("obj", "drec", "nullable", "itemref")  # objects do not enter the ghost function
-            uargs = [a for a in args if not a.is_const and a.t.kind not in skip] + [v for v in kwargs.values() if not v.is_const and v.t.kind not in skip]
+
+            def _empty_display(a):  # `[]` / `{}` literal defaults (element type never determined) carry no information
+                return a.t.kind == "list" and getattr(R.cell(a).ty.elem, "kind", "") == "pending"
+
+            uargs = [a for a in args if not a.is_const and a.t.kind not in skip and not _empty_display(a)] + \
+                    [v for v in kwargs.values() if not v.is_const and v.t.kind not in skip and not _empty_display(v)]
             if recv is not None and not recv.is_const and not recv.t.heap:
                 uargs = [recv] + uargs
             if ext.args:
